@@ -13,7 +13,11 @@ Definition ev_eqb (a b : ev) : bool :=
 Definition evs_eqb := list_eqb ev_eqb.
 
 Inductive mode := MConfig | MSession | MToSQL.   (* how DryRun was switched on *)
-Inductive finisher := FPlain | FRows | FSave | FBatch.   (* Execute once / Rows-Row-Scan / Save with a key / CreateInBatches *)
+Inductive finisher :=
+| FPlain | FRows | FSave | FBatch      (* Execute once / Rows-Scan / Save with a key / CreateInBatches *)
+| FRow                                 (* Row(): the row processor, no error in DryRun *)
+| FNested (nb na : nat)                (* nb derived statements before the main one, na after it *)
+| FManualTx.                           (* Begin(); operation; Rollback() *)
 
 Record case := mk_case {
   c_kind : opk; c_fin : finisher; c_mode : mode; c_skip : bool;
@@ -51,6 +55,11 @@ Definition run_model (cf : cfg) (c : case) (orc : list dres) : rst :=
   | FRows => rows_finisher cf (built_of c) (rst0 orc)
   | FSave => save cf (built_of c) (second_stmt (o_real_log c) false) (rst0 orc)
   | FBatch => create_in_batches cf (stmts_of (o_real_log c)) (rst0 orc)
+  | FRow => execute cf OpRow (built_of c) (rst0 orc)
+  | FNested nb na =>
+    let st := stmts_of (o_real_log c) in
+    execute_nested cf (c_kind c) (built_of c) (firstn nb st) (firstn na (skipn (S nb) st)) (rst0 orc)
+  | FManualTx => manual_tx cf (c_kind c) (built_of c) (rst0 orc)
   end.
 
 Definition model_agrees (c : case) : bool :=
@@ -65,12 +74,22 @@ Definition model_agrees (c : case) : bool :=
 Definition o_real_begin_failed (c : case) : bool :=
   match o_real_log c, c_orc c with EBegin :: _, d :: _ => d_err d | _, _ => false end.
 
+(* the main statement of the real run: the first one, after the nb derived statements that precede it *)
+Fixpoint nth_stmt (l : list ev) (n : nat) : option (string * list scalar) :=
+  match l with
+  | [] => None
+  | EStmt _ q v :: r => match n with O => Some (q, v) | S n' => nth_stmt r n' end
+  | _ :: r => nth_stmt r n
+  end.
+Definition main_stmt (c : case) : option (string * list scalar) :=
+  nth_stmt (o_real_log c) (match c_fin c with FNested nb _ => nb | _ => O end).
+
 Definition spec_holds (c : case) : bool :=
   (* no prepare, exec or query in DryRun; nothing at all for ToSQL *)
   forallb is_tx_event (o_dry_log c)
   && match c_mode c with MToSQL => match o_dry_log c with [] => true | _ => false end | _ => true end
   (* the exposed statement is the first statement the real run sends *)
-  && match c_fin c, first_stmt (o_real_log c) with
+  && match c_fin c, main_stmt c with
      | FBatch, _ => true           (* several statements, none of them "the" main statement *)
      | _, Some (s, v) => String.eqb s (o_dry_sql c) && scalars_eqb v (o_dry_vars c)
      (* the real run sent nothing (refused, or nothing to do): then the dry run must not have shown,
